@@ -499,7 +499,9 @@ def run_channels(p, wd: Path, stem="Case", with_csv=True, options=None):
     attempt("model/wrapper", lambda: wrapper(TargetInput.model_validate(copy.deepcopy(p))))
     attempt("vu-dict/service", lambda: records(pinch_analysis_service(vu_wrap(p), project_name=stem), stem))
     attempt("vu-model/wrapper", lambda: wrapper(TargetInput.model_validate(vu_wrap(p))))
-    jf = wd / f"{stem}.json"
+    # the kind of a problem file is decided by its extension whatever its letter case: derive the spelling from the stem
+    jext, xext = [(".json", ".xlsx"), (".JSON", ".Xlsx"), (".Json", ".XLSX")][sum(map(ord, stem)) % 3]
+    jf = wd / f"{stem}{jext}"
     jf.write_text(json.dumps(p), encoding="utf-8")
     attempt("json/service", lambda: records(pinch_analysis_service(json.loads(jf.read_text(encoding="utf-8")), project_name=stem), stem))
     attempt("json/wrapper", lambda: wrapper(jf, stem))
@@ -509,7 +511,7 @@ def run_channels(p, wd: Path, stem="Case", with_csv=True, options=None):
         attempt("csvdir/service", lambda: records(pinch_analysis_service(get_problem_from_csv(cd / "streams.csv", cd / "utilities.csv"), project_name=stem), stem))
         attempt("csvdir/wrapper", lambda: wrapper(cd, stem))
         attempt("csvpair/wrapper", lambda: wrapper((cd / "streams.csv", cd / "utilities.csv")))
-    xf = wd / f"{stem}.xlsx"
+    xf = wd / f"{stem}{xext}"
     write_xlsx(p, xf, options)
     attempt("xlsx/service", lambda: records(pinch_analysis_service(get_problem_from_excel(xf), project_name=stem), stem))
     attempt("xlsx/wrapper", lambda: wrapper(xf, stem))
